@@ -702,7 +702,7 @@ pub async fn unknown_outcome(seed_rng: &Rng, backend: Backend, n_ops: usize, fau
                 nd.flushed_issued = flushed_before;
                 nd.issued = issued;
                 nd.history = d.history.clone();
-                nd.history.push(format!("-- storage error, application reopened: {}", &err[..err.len().min(120)]));
+                nd.history.push(format!("-- storage error, application reopened: {}", vcore::clip(&err, 120)));
                 d = nd;
                 let ctx = d.ctx();
                 let ok = audit(&d.coll, &d.model, d.set, st, &AuditCtx { sig: &sg("UO"), ctx: &|| json!({"fault": format!("{fault:?}"), "backend": format!("{backend:?}"), "driver": ctx.clone()}) }).await;
@@ -852,7 +852,7 @@ pub async fn failed_call_then_crash(seed_rng: &Rng, backend: Backend, tier: vcor
                                 d.model.docs.insert(extra[0], n);
                                 d.issued.insert(extra[0]);
                             }
-                            d.history.push(format!("-- storage error, handle still Active, application continues: {}", &err[..err.len().min(100)]));
+                            d.history.push(format!("-- storage error, handle still Active, application continues: {}", vcore::clip(&err, 100)));
                         } else {
                             st.count("fcc_reopened_after_fault");
                             let cold = wrap(backend, rec.as_dyn());
